@@ -1,5 +1,6 @@
 SPECIFICATION GenSpec
 CONSTANTS
   Cfgs <- GenCfgs
-  Walk = "current"
+  Walk = "fixed"
+  EnvFail = "done"
 CHECK_DEADLOCK FALSE
